@@ -229,7 +229,8 @@ PROPS = {
              'tmux server driven through --listen: random action histories ending in accept / accept-non-empty / '
              'accept-or-print-query / abort / print-query / cancel, with --multi selection histories, print(), --print-query; '
              '(c) in-process filter runs; non-trivial = some but not all records printed / a history of >= 5 steps; distinct = distinct case lines'
-             '; sessions also with --accept-nth (15 range forms incl. negative and out-of-range bounds over records of 1..4 fields) and --expect (ended by pressing one of the keys or by a posted accept)',
+             '; sessions also with --accept-nth (15 range forms incl. negative and out-of-range bounds over records of 1..4 fields) and --expect (ended by pressing one of the keys or by a posted accept)'
+             '; sessions also under --print0',
         trusted=['tmux as the terminal emulator', 'the --listen endpoint as the way to inject actions', 'OS pipes'],
         level_text='Lean 4 theorems: exit status and output of a session stated outright for every final state (abort 130 and no '
                    'output; print-query 0; accept 0 iff a selected or current line is output, else 1); output order (query, queued '
@@ -250,7 +251,8 @@ PROPS = {
              'and selection (select/deselect/toggle*/select-all/deselect-all/toggle-all/clear-selection) actions and toggle-sort, '
              'over lists of 0..40 lines, window heights 5..24, three layouts, --multi limits 0/1/2/3/unlimited, --cycle, --tac, '
              '--no-sort, --exact; non-trivial = >= 5 steps on >= 2 lines; distinct = distinct sessions'
-             '; a directed template of word motions / kills / yank over words made of non-ASCII letters and digits',
+             '; a directed template of word motions / kills / yank over words made of non-ASCII letters and digits'
+             '; a directed template with reload (of the same input): selections and exclusions are dropped, the query and the cursor stay',
         trusted=['tmux', 'the --listen endpoint (state is observed after the renderer has settled: three equal consecutive GETs)',
                  'what matching returns for a query is the C01/C04 model (parameter resultsOf of the session model)'],
         level_text='Lean 4 theorems over the session model, for every history of action lists and every option set: the query cursor '
